@@ -639,6 +639,17 @@ func conclude(prop, tier string, seed int64, t0 time.Time, loadS float64, result
 			pend = append(pend, pending{file: file, model: m, harness: r.Name, dir: r.Dir})
 		}
 	}
+	findingLabels := map[string]map[string]bool{}
+	for _, f := range allFindings {
+		if findingLabels[f.Harness] == nil {
+			findingLabels[f.Harness] = map[string]bool{}
+		}
+		if f.Kind == "panic" {
+			findingLabels[f.Harness]["<panic>"] = true
+		} else {
+			findingLabels[f.Harness][normLabel(f.Label)] = true
+		}
+	}
 	validated := 0
 	violations := 0
 	var knownLines []string
@@ -673,6 +684,22 @@ func conclude(prop, tier string, seed int64, t0 time.Time, loadS float64, result
 				}
 				if p.model != nil {
 					// translator validation: observations and reach labels must agree; no failure natively
+					// (except failures the engine itself reports as findings of this harness: a path model is
+					// taken at a reach label, before later assertions of the same path are decided)
+					if nr.Status == "assert" {
+						all := true
+						for _, l := range nr.Failures {
+							if !findingLabels[p.harness][normLabel(l)] {
+								all = false
+							}
+						}
+						if all {
+							continue
+						}
+					}
+					if nr.Status == "panic" && findingLabels[p.harness]["<panic>"] {
+						continue
+					}
 					if nr.Status != "ok" {
 						inconcl = append(inconcl, fmt.Sprintf("%s: translator validation: native run status %s (%v %s) on a model of a passing path", p.harness, nr.Status, nr.Failures, nr.Panic))
 						continue
@@ -706,7 +733,7 @@ func conclude(prop, tier string, seed int64, t0 time.Time, loadS float64, result
 				switch f.Kind {
 				case "assert":
 					for _, l := range nr.Failures {
-						if l == f.Label {
+						if normLabel(l) == normLabel(f.Label) {
 							reproduced = true
 						}
 					}
@@ -809,6 +836,14 @@ func conclude(prop, tier string, seed int64, t0 time.Time, loadS float64, result
 	fmt.Printf("%s property=%s tier=%s harnesses=%d obligations=%d discharged=%d queries=%d solver=%.1fs validated=%d wall=%.1fs\n",
 		strings.ToUpper(verdict), prop, tier, len(results), total.Obligations, total.Discharged, queries, solverS, validated, time.Since(t0).Seconds())
 	return code
+}
+
+// normLabel drops the model-dependent suffix of byte-comparison labels.
+func normLabel(l string) string {
+	if i := strings.Index(l, ": byte "); i >= 0 && strings.HasSuffix(l, " differs") {
+		return l[:i]
+	}
+	return l
 }
 
 func uniq(xs []string) []string {
